@@ -68,6 +68,66 @@ Definition default_clock : clock :=
 
 Definition get_clock (cs : list clock) (i : nat) : clock := nth i cs default_clock.
 
+(* ------------------------------------------------------------------------- *)
+(** * frontend ClockConfig: optional fields and their inheritance (frontend/Clock.cpp, hlim/Clock.cpp) *)
+
+(* What the user writes: gtry::ClockConfig.  None = std::optional left unset. *)
+Record clock_config := mk_clock_config {
+  cc_parent : option nat;             (* None: Clock(config) root clock; Some p: clock p .deriveClock(config) *)
+  cc_freq : option Q;                 (* absoluteFrequency (root, mandatory) / frequencyMultiplier (derived) *)
+  cc_name : option N; cc_rstname : option N;
+  cc_trig : option trigger;
+  cc_phasesync : option bool;
+  cc_rst : option rstkind; cc_active_high : option bool; cc_initregs : option bool;
+  cc_minrsttime : Q; cc_minrstcycles : N }.   (* hlim::Clock::setMinResetTime / setMinResetCycles, not part of ClockConfig *)
+
+(* gtry::Clock::applyConfig: `if (config.x) attribute = *config.x;` on top of what the constructor left there *)
+Definition inh {A} (set : option A) (from_parent : option A) (dflt : A) : A :=
+  match set with
+  | Some v => v
+  | None => match from_parent with Some v => v | None => dflt end
+  end.
+
+(* One clock being created, `acc` = the hlim clocks created so far.
+   hlim::Clock::Clock(): name "clk", resetName "reset", RISING, phaseSynchronousWithParent = true; RegisterAttributes{}:
+   resetType SYNCHRONOUS, initializeRegs true, resetActive HIGH.
+   hlim::DerivedClock(parent): copies m_name, m_resetName, m_triggerEvent, m_phaseSynchronousWithParent and the
+   register attributes from the parent; m_parentRelativeMultiplicator = 1 (NOT inherited).
+   Then applyConfig overrides exactly the fields that are set. *)
+Definition resolve_one (acc : list clock) (cc : clock_config) : clock :=
+  let par := match cc_parent cc with Some p => nth_error acc p | None => None end in
+  mk_clock (cc_parent cc)
+           (match cc_freq cc with Some f => f | None => 1%Q end)
+           (inh (cc_name cc) (option_map ck_name par) 0%N)
+           (inh (cc_rstname cc) (option_map ck_rstname par) 0%N)
+           (inh (cc_trig cc) (option_map ck_trig par) RISING)
+           (inh (cc_phasesync cc) (option_map ck_phasesync par) true)
+           (inh (cc_rst cc) (option_map ck_rst par) RST_SYNC)
+           (inh (cc_active_high cc) (option_map ck_active_high par) true)
+           (inh (cc_initregs cc) (option_map ck_initregs par) true)
+           (cc_minrsttime cc) (cc_minrstcycles cc).
+
+(* the clocks of a design in creation order *)
+Definition resolve_clocks (ccs : list clock_config) : list clock :=
+  fold_left (fun acc cc => acc ++ [resolve_one acc cc]) ccs [].
+
+(* the effective value of one attribute: the nearest explicitly set value up the derivation chain, else the default *)
+Fixpoint effective_f {A} (get : clock_config -> option A) (dflt : A) (ccs : list clock_config)
+         (fuel : nat) (i : nat) : A :=
+  match nth_error ccs i with
+  | None => dflt
+  | Some cc =>
+    match get cc with
+    | Some v => v
+    | None => match cc_parent cc, fuel with
+              | Some p, S f => effective_f get dflt ccs f p
+              | _, _ => dflt
+              end
+    end
+  end.
+Definition effective {A} (get : clock_config -> option A) (dflt : A) (ccs : list clock_config) (i : nat) : A :=
+  effective_f get dflt ccs (length ccs) i.
+
 Definition trigger_eqb (a b : trigger) : bool :=
   match a, b with RISING, RISING | FALLING, FALLING | RISING_AND_FALLING, RISING_AND_FALLING => true | _, _ => false end.
 Definition rstkind_eqb (a b : rstkind) : bool :=
